@@ -601,6 +601,34 @@ impl Exec {
         if self.on(8) || self.on(9) {
             if self.on(8) {
                 c08_paths(b, p, path)?;
+                // through a null move and back: without en-passant state, passing twice is the identity
+                if b.en_passant().is_none() {
+                    if let Some(n) = b.null_move() {
+                        if let Some(nn) = n.null_move() {
+                            self.stats.cnt("reach.null_null_identity_checked");
+                            if nn != *b || nn.get_hash() != b.get_hash() || std_hash(&nn) != std_hash(b) {
+                                return Err(viol(
+                                    "C08",
+                                    &format!("hash/null_move_twice_not_identity/{}", path),
+                                    format!("null_move().null_move() of {} gives {} ({:016x} vs {:016x})", p.fen(), nn, nn.get_hash(), b.get_hash()),
+                                ));
+                            }
+                        }
+                    }
+                }
+            }
+            if self.on(9) {
+                // the side-to-move sibling built by null_move must hash differently
+                if let Some(n) = b.null_move() {
+                    self.stats.cnt("reach.null_move_sibling_checked");
+                    if n.get_hash() == b.get_hash() {
+                        return Err(viol(
+                            "C09",
+                            "sibling/same_hash/side_via_null_move",
+                            format!("{} and its null-moved sibling both hash to {:016x}", p.fen(), b.get_hash()),
+                        ));
+                    }
+                }
             }
             self.stats.keys.push((kfp, fp64b(&kb), b.get_hash()));
             self.eval(kfp ^ fp64(path.as_bytes()), path != "incremental");
@@ -1374,6 +1402,10 @@ impl Exec {
                 Some(i) => {
                     let fen = &body[..i];
                     let h = u64::from_str_radix(&body[i + 1..], 16).ok();
+                    if self.on(7) {
+                        // the START record comes back from disk (possibly rotted): full validation surface
+                        self.validate_text(fen)?;
+                    }
                     match guard(|| Game::from_str(fen)) {
                         Ok(Ok(g)) => {
                             let b = g.current_position();
@@ -1425,6 +1457,11 @@ impl Exec {
                 Ok(h) if f[3].len() == 16 => h,
                 _ => break,
             };
+            if self.on(13) && f[2].len() >= 4 && !f[2].contains(':') && f[2] != "accept" && f[2] != "declare" {
+                // a (possibly rotted) move text coming back from disk: totality and prefix rule
+                self.decode_uci_op(f[2])?;
+                self.stats.cnt("reach.journal_move_text_decoded");
+            }
             let act = match parse_act_text(f[2]) {
                 Some(a) => a,
                 None => break,
